@@ -51,8 +51,9 @@ enum Kind { DSET, XSET, DCLR, CSET, CCLR, EMIT, EMSG, EMSG_EMPTY, ENULL, HASH, H
             W_RESERVE, W_REL, W_SET, W_CLEAR };
 struct Letter { Kind k; uint64_t id; int ans; int shape; std::string name; std::string sig; };
 
-// tied flavours (quick closure): id 0 is always registered with a NULL context, the other ids with a context pointer
-static bool flavour_ok(bool tied, uint64_t id, int f) { return !tied || (id == 0) == (f == 1); }
+// tied flavours (large alphabet, quick closure): ids 0, 2, #stop are always registered with a NULL context, ids 1, #go with a
+// context pointer; the thorough closure (small alphabet) combines ids and flavours freely
+static bool flavour_ok(bool tied, uint64_t id, int f) { return !tied || (id == 0 || id == 2 || id == ID_STOP) == (f == 1); }
 static void build_letters(int alpha, bool tied, std::vector<Letter> &L)
 {
 	bool th = alpha & 1;
@@ -76,7 +77,7 @@ static void build_letters(int alpha, bool tied, std::vector<Letter> &L)
 	// flavour: context pointer = token index (handler H) or NULL context (one trampoline function per token)
 	static const char *fl[] = { "h,ctx", "h',NULL" };
 	for (uint64_t id : R) for (int f = 0; f < 2; ++f) if (flavour_ok(tied, id, f)) L.push_back(Letter{DSET, id, 0, f, "dispatch_set(" + idname(id) + "," + fl[f] + ")", "dispatch_set"});
-	if (th) for (uint64_t id : R) for (int f = 0; f < 2; ++f) L.push_back(Letter{XSET, id, 0, f, "array::set_handler(" + idname(id) + "," + fl[f] + ")", "dispatch_set"});
+	if (th) for (uint64_t id : R) for (int f = 0; f < 2; ++f) if (flavour_ok(tied, id, f)) L.push_back(Letter{XSET, id, 0, f, "array::set_handler(" + idname(id) + "," + fl[f] + ")", "dispatch_set"});
 	for (uint64_t id : R) L.push_back(Letter{DCLR, id, 0, 0, "dispatch_set(" + idname(id) + ",NULL)", "dispatch_set(NULL)"});
 	for (uint64_t id : R) for (int f = 0; f < 2; ++f) if (flavour_ok(tied, id, f)) L.push_back(Letter{CSET, id, 0, f, "command_set(" + idname(id) + "," + fl[f] + ")", "command_set"});
 	for (uint64_t id : R) L.push_back(Letter{CCLR, id, 0, 0, "command_set(" + idname(id) + ",NULL)", "command_set(NULL)"});
@@ -106,7 +107,7 @@ static const std::vector<Letter> &letters(int alpha)
 {
 	static std::vector<Letter> cache[5];
 	std::vector<Letter> &L = cache[alpha];
-	if (L.empty()) build_letters(alpha & 3, alpha == 4, L);
+	if (L.empty()) build_letters(alpha & 3, alpha == 4 || alpha == 1, L);
 	return L;
 }
 static uint64_t make_init(int alpha, unsigned prefill, const std::vector<int> &prefix)
